@@ -329,7 +329,7 @@ class iCVI_CH:
             )  # At least for now
 
         newP = {"x": x, "label": label}  # New Parameters after removal
-        newP["mu"] = self.mu - delta_remove_sample_from_average(
+        newP["mu"] = self.mu + delta_remove_sample_from_average(
             self.mu, x, self.n_samples
         )
         newP["n_samples"] = self.n_samples - 1
